@@ -62,7 +62,7 @@ func (h *history) record(client int, i in, f func() out) out {
 	return o
 }
 
-var w2ops = []string{"set(7)", "set(-1)", "set-wrong-type-(i)", "set-wrong-type-I", "set-wrong-type-s", "set-by-id(8)"}
+var w2ops = []string{"set(7)", "set(-1)", "set-wrong-type-(i)", "set-wrong-type-I", "set-wrong-type-s", "set-by-id(8)", "set-wrong-type-I-by-id", "set-wrong-type-s-by-id"}
 
 func rawInt(v int32) []byte {
 	var b bytes.Buffer
@@ -150,10 +150,19 @@ func body(fine bool) func() {
 					val = value.Uint(6)
 				case "set-wrong-type-s":
 					val = value.String("abcd")
+				case "set-wrong-type-I-by-id":
+					val = value.Uint(6)
+				case "set-wrong-type-s-by-id":
+					val = value.String("abcd")
+				}
+				// the property is named by its string name or by its numeric id
+				var name value.Value = value.String("level")
+				if variant == "set-wrong-type-I-by-id" || variant == "set-wrong-type-s-by-id" {
+					name = value.Uint(107)
 				}
 				// a wrongly-typed write must be refused and change nothing
 				o := h.record(2, in{false, 6}, func() out {
-					err := p2.SetProperty(value.String("level"), val)
+					err := p2.SetProperty(name, val)
 					return out{ok: err == nil}
 				})
 				if o.ok {
@@ -215,7 +224,7 @@ func body(fine bool) func() {
 
 func init() {
 	reg.Register(&reg.Scenario{Property: "C14", Name: "three-writers", Body: body(false), Quick: 1, Thorough: 2,
-		Doc:      "client1: set 5, get || client2: one of {set 7, set -1, three wrongly-typed sets, set by id}, get || service: update 9, update -3 || the middle one of three subscribers leaves; porcupine against a register",
+		Doc:      "client1: set 5, get || client2: one of {set 7, set -1, five wrongly-typed sets (by name and by numeric id), set by id}, get || service: update 9, update -3 || the middle one of three subscribers leaves; porcupine against a register",
 		MustFlag: []string{"validator-rejected", "writes-reordered"}})
 	reg.Register(&reg.Scenario{Property: "C14", Name: "three-writers-statement-level", Body: body(true), Quick: 1, Thorough: 2,
 		Doc: "same with bus/object.go interleaved at statement level"})
